@@ -195,8 +195,8 @@ pub struct TypeSpace {
 
     name_to_id: BTreeMap<String, TypeId>,
     ref_to_id: BTreeMap<RefKey, TypeId>,
-    // References whose definitions were added by a call that succeeded.
-    added_refs: BTreeSet<RefKey>,
+    // Definitions that were added by a call that succeeded.
+    added_refs: BTreeMap<RefKey, Schema>,
 
     uses_chrono: bool,
     uses_uuid: bool,
@@ -624,15 +624,11 @@ impl TypeSpace {
         let definitions = type_defs
             .into_iter()
             .filter(|(ref_name, schema)| {
-                let already_added = self.added_refs.contains(ref_name)
-                    && self.definitions.get(ref_name) == Some(schema);
+                let already_added = self.added_refs.get(ref_name) == Some(schema);
                 !already_added
             })
             .collect::<Vec<_>>();
-        let added_refs = definitions
-            .iter()
-            .map(|(ref_name, _)| ref_name.clone())
-            .collect::<Vec<_>>();
+        let added_refs = definitions.clone();
 
         // Assign IDs to reference types before actually converting them. We'll
         // need these in the case of forward (or circular) references.
